@@ -142,3 +142,105 @@ void h_ctr(void)
 	V_ASSERT(o_eq(buf, x0, CNT), "beltCTRStepD inverts beltCTRStepE");
 	V_CANARY("ctr");
 }
+
+/* ---- MAC and DWP against the standard's equations over the same E (and the same GF(2^128)
+   multiplication) -------------------------------------------------------------------- */
+#include "crypto/belt/belt_lcl.h"
+#include "bee2/math/ww.h"
+#include "bee2/core/err.h"
+
+void h_mac(void)
+{
+	SETUP;
+	size_t i, k;
+	octet s[16], r[16], t[16], g[8], zero[16];
+	V_ALLOC(octet, state, beltMAC_keep());
+	/* spec: s = 0; r = E(0); s = E(s ^ X_i) for all blocks but the last; last block:
+	   full: s ^= X_n ^ phi1(r), ragged (incl. empty): s ^= (X_n || 1 || 0..) ^ phi2(r);  T = L_64(E(s))
+	   phi1(u1 u2 u3 u4) = u2 u3 u4 (u1 ^ u2),  phi2(u1 u2 u3 u4) = (u1 ^ u4) u1 u2 u3   (32-bit words) */
+	for (i = 0; i < 16; ++i) zero[i] = 0, s[i] = 0;
+	E(r, zero, K);
+	for (i = 0; i + 16 < CNT; i += 16) { o_xor(t, s, x0 + i, 16); E(s, t, K); }
+	if (CNT && CNT % 16 == 0)
+	{
+		o_xor(s, s, x0 + CNT - 16, 16);
+		for (k = 0; k < 12; ++k) s[k] ^= r[k + 4];
+		for (k = 0; k < 4; ++k) s[12 + k] ^= r[k] ^ r[4 + k];
+	}
+	else
+	{
+		size_t rem = CNT % 16;
+		octet pad[16];
+		for (k = 0; k < 16; ++k) pad[k] = k < rem ? x0[CNT - rem + k] : (k == rem ? 0x80 : 0);
+		o_xor(s, s, pad, 16);
+		for (k = 0; k < 4; ++k) s[k] ^= r[k] ^ r[12 + k];
+		for (k = 0; k < 12; ++k) s[4 + k] ^= r[k];
+	}
+	E(t, s, K);
+	o_copy(buf, x0, CNT);
+	beltMACStart(state, key, KLEN);
+	beltMACStepA(buf, CNT, state);
+	beltMACStepG(g, state);
+	V_ASSERT(o_eq(g, t, 8), "beltMACStepG == belt-mac of STB 34.101.31 over E");
+	V_ASSERT(beltMACStepV(g, state), "beltMACStepV accepts the MAC");
+	g[3] ^= 1;
+	V_ASSERT(!beltMACStepV(g, state), "beltMACStepV rejects an altered MAC");
+	V_CANARY("mac");
+}
+
+#ifndef LI
+#define LI 21
+#endif
+static void gmul(octet t[16], const octet r[16])
+{
+	word a[W_OF_B(128)], b[W_OF_B(128)];
+	octet stack[512];
+	V_ASSERT(beltPolyMul_deep() <= sizeof(stack), "scratch for beltPolyMul");
+	wwFrom(a, t, 16), wwFrom(b, r, 16);
+	beltPolyMul(a, a, b, stack);
+	wwTo(t, 16, a);
+}
+void h_dwp(void)
+{
+	SETUP;
+	V_IN_ARR(octet, i0, LI ? LI : 1);
+	V_IN_ARR(octet, badtag, 8);
+	size_t i, k;
+	octet s[16], r[16], t[16], g[16], tag[8], blk[16], lenb[16], back[CC];
+	V_ALLOC(octet, state, beltDWP_keep());
+	/* spec: s = E(S); r = E(s); t = first 16 octets of H; t = (t ^ I_i) * r; CTR from s -> Y; t = (t ^ Y_i) * r;
+	   t = (t ^ (<|I|>_64 || <|X|>_64)) * r; T = L_64(E(t)) */
+	E(s, iv, K); E(r, s, K);
+	o_copy(t, beltH(), 16);
+	for (i = 0; i < LI; i += 16) { for (k = 0; k < 16; ++k) blk[k] = i + k < LI ? i0[i + k] : 0; o_xor(t, t, blk, 16); gmul(t, r); }
+	for (i = 0; i < CNT; i += 16)
+	{
+		size_t n = CNT - i < 16 ? CNT - i : 16;
+		unsigned c = 1;
+		for (k = 0; k < 16; ++k) { unsigned u = s[k] + c; s[k] = (octet)u, c = u >> 8; }
+		E(g, s, K);
+		o_xor(e + i, x0 + i, g, n);
+		for (k = 0; k < 16; ++k) blk[k] = k < n ? e[i + k] : 0;
+		o_xor(t, t, blk, 16); gmul(t, r);
+	}
+	for (k = 0; k < 8; ++k) lenb[k] = (octet)(((u64)LI * 8) >> (8 * k)), lenb[8 + k] = (octet)(((u64)CNT * 8) >> (8 * k));
+	o_xor(t, t, lenb, 16); gmul(t, r);
+	E(g, t, K); o_copy(tag, g, 8);
+	/* step functions */
+	o_copy(buf, x0, CNT);
+	beltDWPStart(state, key, KLEN, iv);
+	beltDWPStepI(i0, LI, state);
+	beltDWPStepE(buf, CNT, state);
+	beltDWPStepA(buf, CNT, state);
+	beltDWPStepG(g, state);
+	V_ASSERT(o_eq(buf, e, CNT), "beltDWPStepE == CTR over E from s = E(S)");
+	V_ASSERT(o_eq(g, tag, 8), "beltDWPStepG == belt-dwp tag of STB 34.101.31 (header and message zero-padded per block, length block)");
+	/* high-level: Wrap == spec; Unwrap inverts it and accepts exactly the right tag */
+	{
+		octet y[CC], m[8];
+		V_ASSERT(beltDWPWrap(y, m, x0, CNT, i0, LI, key, KLEN, iv) == ERR_OK && o_eq(y, e, CNT) && o_eq(m, tag, 8), "beltDWPWrap == spec");
+		V_ASSERT(beltDWPUnwrap(back, y, CNT, i0, LI, m, key, KLEN, iv) == ERR_OK && o_eq(back, x0, CNT), "beltDWPUnwrap inverts beltDWPWrap");
+		V_ASSERT((beltDWPUnwrap(back, y, CNT, i0, LI, badtag, key, KLEN, iv) == ERR_OK) == o_eq(badtag, tag, 8), "beltDWPUnwrap accepts exactly the tag of the standard");
+	}
+	V_CANARY("dwp");
+}
